@@ -1886,17 +1886,19 @@ def decompress(file_obj, file_type):
         # reading, which is a gigabyte for a single corrupt byte
         archive = zipfile.ZipFile(BytesIO(file_obj.read()))
         return {name: wrap_as_stream(archive.read(name)) for name in archive.namelist()}
+    if "tar" in file_type[-7:]:
+        # check for a tar archive first as `tar.bz2` is
+        # a compressed archive and not a single `bz2` file
+        import tarfile
+
+        archive = tarfile.open(fileobj=file_obj, mode="r")
+        return {name: archive.extractfile(name) for name in archive.getnames()}
     if file_type.endswith("bz2"):
         import bz2
 
         # get the file name if we have one otherwise default to "archive"
         name = getattr(file_obj, "name", "archive1234")[:-4]
         return {name: wrap_as_stream(bz2.open(file_obj, mode="r").read())}
-    if "tar" in file_type[-6:]:
-        import tarfile
-
-        archive = tarfile.open(fileobj=file_obj, mode="r")
-        return {name: archive.extractfile(name) for name in archive.getnames()}
     raise ValueError("Unsupported type passed!")
 
 
